@@ -45,6 +45,10 @@ def worker_env():
     env["PYTHONPATH"] = core.VERIF + os.pathsep + env.get("PYTHONPATH", "")
     env["PYTHONDONTWRITEBYTECODE"] = "1"
     env["RIG_VERIF"] = "1"
+    # workers keep the interpreter's stock warning filters (their output
+    # goes to a log file): whether a warning the library promises is
+    # *shown* depends on them and on what importing the library does to them
+    env.pop("PYTHONWARNINGS", None)
     for k in ("OMP_NUM_THREADS", "OPENBLAS_NUM_THREADS", "MKL_NUM_THREADS"):
         env[k] = "1"
     return env
